@@ -86,12 +86,17 @@ def main():
             # Keep a record of what was tried (development log, committed with the seeds).
             try:
                 rp = os.path.join(ROOT, "seeded", "results.json")
+                import fcntl
+                lk = open(os.path.join(ROOT, "target", "seeded-results.lock"), "w")
+                fcntl.flock(lk, fcntl.LOCK_EX)
                 res = json.load(open(rp)) if os.path.exists(rp) else {}
                 head = subprocess.run(["git", "-C", ROOT, "rev-parse", "--short", "HEAD"], capture_output=True, text=True).stdout.strip()
                 res.setdefault(name, []).append({"check": p, "tier": tier, "only": only, "rc": r.returncode, "caught": bool(r.returncode == 1 and viol),
                                                  "signatures": [s.replace("signature: ", "") for s in sigs][:8], "verif_commit": head, "repo_base": base,
                                                  "summary": summary[-1] if summary else ""})
-                json.dump(res, open(rp, "w"), indent=1)
+                with open(rp, "w") as rf:
+                    json.dump(res, rf, indent=1)
+                fcntl.flock(lk, fcntl.LOCK_UN)
             except Exception as e:  # noqa: BLE001
                 print("could not record result:", e)
     finally:
